@@ -623,6 +623,114 @@ pub fn run(r: &Report) -> Vec<BuiltLog> {
     logs
 }
 
+/// Crash *during* writable recovery (second crash of a crash→recover→crash cycle).
+///
+/// The truncation performed by `recover_filesystem_store(Writable)` is observed through the
+/// interposer: if the segment file is unlinked and a new one is written and fsynced only at the end,
+/// then between the unlink and the final fsync the durable segment is absent or a byte prefix of the
+/// rewritten content.  Each such state is recovered again; the k transactions that had been
+/// acknowledged before the first crash must still be there.
+pub fn crash_during_recovery(r: &Report, logs: &[BuiltLog]) {
+    let seg1 = WalSegmentId::from_raw(1);
+    let mut seen: std::collections::BTreeSet<[u8; 32]> = std::collections::BTreeSet::new();
+    let mut jobs: Vec<(usize, usize)> = Vec::new();
+    for (i, log) in logs.iter().enumerate() {
+        for k in 1..log.n() {
+            if seen.insert(mc::h(&log.segment[..log.ends[k]])) {
+                jobs.push((i, k));
+            }
+        }
+    }
+    r.counter("cycle2.truncating_recoveries", jobs.len() as u64);
+    let st = jobs
+        .par_iter()
+        .fold(Stats::default, |mut st, (i, k)| {
+            let log = &logs[*i];
+            let (k, l) = (*k, log.ends[*k] + 1);
+            let want = &log.txs[..k];
+            let p = Point { log: *i, l, side: Side { ledger: Some(k), ledger_tmp: Tmp::None, manifest: None, manifest_tmp: Tmp::None } };
+            let case = json!({"layer": "store-cycle2", "word": log.word(), "first_crash_prefix_len": l, "acknowledged": k});
+            with_workdir(|dir| {
+                let img = image(log, &p);
+                reset_dir(dir, &img);
+                let seg_path = dir.join(walkit::SEGMENT_REL);
+                let (res, events) = walkit::syncspy::record(|| recover_filesystem_store(dir, RecoveryAccessMode::Writable));
+                st.evals += 1;
+                if res.is_err() {
+                    return;
+                }
+                let rewritten = std::fs::read(&seg_path).unwrap_or_default();
+                let is_seg = |e: &walkit::syncspy::SyncEvent| e.path.file_name() == seg_path.file_name();
+                let unlink_at = events.iter().position(|e| e.unlink && is_seg(e));
+                let final_sync = events.iter().rposition(|e| !e.unlink && !e.is_dir && is_seg(e) && e.len as usize == rewritten.len());
+                let trace: Vec<String> = events.iter().map(|e| format!("{}({},{})", if e.unlink { "unlink" } else if e.is_dir { "fsync-dir" } else { "fsync" }, e.path.file_name().map(|n| n.to_string_lossy().to_string()).unwrap_or_default(), e.len)).collect();
+                let window = matches!((unlink_at, final_sync), (Some(u), Some(f)) if u < f);
+                if !window {
+                    st.outcome("cycle2:truncation-has-no-unlink-then-rewrite-window");
+                    return;
+                }
+                st.outcome("cycle2:truncation-unlinks-then-rewrites-unsynced");
+                // every durable state inside the window: absent, or any byte prefix of the new content
+                let mut lost_states = 0u64;
+                let mut first_lost: Option<(String, usize)> = None;
+                let mut check = |st: &mut Stats, state: String, got: Result<usize, String>, m: usize| {
+                    st.evals += 1;
+                    match got {
+                        Ok(n) if n >= k => st.outcome("cycle2:state-keeps-acknowledged-transactions"),
+                        Ok(n) => {
+                            st.outcome(&format!("cycle2:state-recovers-{n}-of-{k}"));
+                            lost_states += 1;
+                            if first_lost.is_none() {
+                                first_lost = Some((state, m));
+                            }
+                        }
+                        Err(e) => {
+                            st.outcome(&format!("cycle2:state-err:{e}"));
+                            lost_states += 1;
+                            if first_lost.is_none() {
+                                first_lost = Some((state, m));
+                            }
+                        }
+                    }
+                };
+                for m in 0..rewritten.len() {
+                    let got = mc::catch(|| recover_wal_segment_bytes(seg1, &rewritten[..m], RecoveryAccessMode::ReadOnly))
+                        .map_err(|p| format!("panic:{p}"))
+                        .and_then(|x| x.map_err(|e| ek(&e)))
+                        .map(|rec| rec.report.transactions.iter().zip(want).take_while(|(g, w)| g.commit == w.commit && g.frames == w.frames).count());
+                    check(&mut st, format!("prefix-of-rewritten-segment:{}", pos_class(&frame::parse(&rewritten).0, m)), got, m);
+                    st.nontrivial.push(Report::key(format!("cycle2:{}:{k}:{m}", log.word()).as_bytes()));
+                }
+                // the same through the filesystem readers at the boundaries and with the file absent
+                let (recs2, _) = frame::parse(&rewritten);
+                let mut marks: Vec<Option<usize>> = vec![None, Some(0)];
+                marks.extend(recs2.iter().filter(|x| x.end < rewritten.len()).map(|x| Some(x.end)));
+                for mk in marks {
+                    let mut im = img.clone();
+                    im.segment = mk.map(|m| rewritten[..m].to_vec());
+                    reset_dir(dir, &im);
+                    let got = mc::catch(|| recover_filesystem_store(dir, RecoveryAccessMode::Writable))
+                        .map_err(|p| format!("panic:{p}"))
+                        .and_then(|x| x.map_err(|e| ek(&e)))
+                        .map(|rep| rep.transactions.iter().zip(want).take_while(|(g, w)| g.commit == w.commit && g.frames == w.frames).count());
+                    check(&mut st, if mk.is_none() { "segment-file-absent".to_string() } else { "record-boundary-of-rewritten-segment".to_string() }, got, mk.unwrap_or(0));
+                }
+                if let Some((state, m)) = first_lost {
+                    st.viol(
+                        "store:crash-during-recovery-truncation:acknowledged-transactions-lost".to_string(),
+                        json!({"case": case, "observed_syscalls_of_recovery": trace, "rewritten_len": rewritten.len(),
+                            "first_losing_state": state, "durable_prefix_of_rewritten_segment": m, "losing_states": lost_states}),
+                    );
+                }
+            });
+            st
+        })
+        .reduce(Stats::default, Stats::merge);
+    let oc = st.outcomes.clone();
+    st.flush(r, "store.");
+    r.guard("cycle2.truncating_recovery_observed", oc.keys().any(|k| k.starts_with("cycle2:truncation-")));
+}
+
 /// Replay one store-layer crash point from a violation's `detail.case`.
 pub fn replay(case: &Value, st: &mut Stats) -> Result<(), String> {
     let w: Vec<TxKind> = case["word"]
